@@ -19,6 +19,12 @@ def grid3 (size cs : Nat × Nat × Nat) : List ((Nat × Nat) × (Nat × Nat) × 
     (ranges size.2.1 cs.2.1).flatMap fun ry =>
       (ranges size.2.2 cs.2.2).map fun rz => (rx, ry, rz)
 
+/-- the same cells in the order `volume_to_precomputed` writes them (z outermost, x innermost) -/
+def volumeLoop (size cs : Nat × Nat × Nat) : List ((Nat × Nat) × (Nat × Nat) × (Nat × Nat)) :=
+  (ranges size.2.2 cs.2.2).flatMap fun rz =>
+    (ranges size.2.1 cs.2.1).flatMap fun ry =>
+      (ranges size.1 cs.1).map fun rx => (rx, ry, rz)
+
 /-- voxel count of one grid cell -/
 def cellVoxels (c : (Nat × Nat) × (Nat × Nat) × (Nat × Nat)) : Nat :=
   (c.1.2 - c.1.1) * ((c.2.1.2 - c.2.1.1) * (c.2.2.2 - c.2.2.1))
